@@ -75,6 +75,7 @@ type HarnessSpec struct {
 	TimeBudgetS   int              `json:"time_budget_s"`
 	DivAxioms     bool             `json:"div_axioms"`     // encode x/c, x%c (c constant) by x = q*c + r instead of bvsdiv/bvsrem
 	Solver        string           `json:"solver"`         // path solver: z3 (default) | z3-new | cvc5 | cvc5-int
+	Arith         string           `json:"arith"`          // "" = bit-vectors; "int" = exact signed-integer printing (sym/intmode.go)
 }
 
 func (h *HarnessSpec) fill() {
@@ -134,6 +135,7 @@ type World struct {
 	poison      map[string]string
 	assertSeen  map[string]int64
 	assertDisch map[string]int64
+	assertTriv  map[string]int64
 	portfolioBy map[string]int64
 	LoadSeconds float64
 	harnessPkgs map[string]*ssa.Package
@@ -226,6 +228,11 @@ func (w *World) notePoison(pkg, msg string) {
 func (w *World) noteAssertion(h, id string) {
 	w.mu.Lock()
 	w.assertSeen[h+"/"+id]++
+	w.mu.Unlock()
+}
+func (w *World) noteTrivial(h, id string) {
+	w.mu.Lock()
+	w.assertTriv[h+"/"+id]++
 	w.mu.Unlock()
 }
 func (w *World) noteDischarged(h, id string) {
@@ -351,7 +358,7 @@ func Load(spec *Spec, harnessRoot string) (*World, error) {
 		Prog: prog, Pkgs: pkgs, SpecFile: spec,
 		overrides: map[string]*ssa.Function{}, realFuncs: map[string]bool{},
 		skipInitPkgs: map[string]bool{}, poison: map[string]string{},
-		assertSeen: map[string]int64{}, assertDisch: map[string]int64{}, portfolioBy: map[string]int64{},
+		assertSeen: map[string]int64{}, assertDisch: map[string]int64{}, assertTriv: map[string]int64{}, portfolioBy: map[string]int64{},
 		harnessPkgs: map[string]*ssa.Package{},
 		Portfolio:   []string{"z3", "z3-new", "cvc5", "cvc5-int"}, PortfolioTimeout: 60 * time.Second,
 	}
@@ -447,7 +454,7 @@ func (w *World) effective(h *HarnessDecl) (*HarnessSpec, error) {
 		for k := range probe {
 			known[k] = true
 		}
-		for _, k := range []string{"div_axioms", "solver", "float", "sched", "maporder", "sort", "pool", "unwind", "max_decisions", "max_depth", "max_threads", "preempt", "concretize_max", "max_alloc", "max_steps", "max_paths", "feas_ms", "assert_ms", "clock_lo", "clock_hi", "clock_nanos", "panic_ok", "unwind_viol", "deadlock_ok", "time_budget_s", "params", "fix"} {
+		for _, k := range []string{"div_axioms", "solver", "arith", "float", "sched", "maporder", "sort", "pool", "unwind", "max_decisions", "max_depth", "max_threads", "preempt", "concretize_max", "max_alloc", "max_steps", "max_paths", "feas_ms", "assert_ms", "clock_lo", "clock_hi", "clock_nanos", "panic_ok", "unwind_viol", "deadlock_ok", "time_budget_s", "params", "fix"} {
 			known[k] = true
 		}
 		rest := map[string]interface{}{}
